@@ -52,8 +52,9 @@ func (r Req) Letter() string { return [...]string{"d", "r", "o"}[r] }
 type Annotation struct{ Key, Value string }
 
 type Field struct {
-	ID          int16 // effective id (for implicit ids: what thriftgo's parser assigns, previous id + 1, first = 1)
-	HasID       bool  // false = the id is not written in the IDL
+	ID          int16  // effective id (for implicit ids: what thriftgo's parser assigns, previous id + 1, first = 1)
+	HasID       bool   // false = the id is not written in the IDL
+	IDText      string // when non-empty and HasID: the id as written in the IDL (zero-padded decimal, hex); denotes ID
 	Name        string
 	Req         Req
 	Type        *Type
